@@ -222,4 +222,11 @@ def vGood : View :=
 example : extraRuleErrs O0 vGood = [] := by decide
 example : DistinctKeys vGood.ops := by simp [DistinctKeys, vGood]
 
+/-- templates of one method that differ by a trailing slash — also after placeholder stripping — do not overlap: the stripped
+    forms keep the trailing segment separator (`stripParametersInPath` is regenerated from helpers.go on every run) -/
+theorem C03_witness_trailing_slash_is_not_an_overlap :
+    overlapErrs [{ method := "GET", path := "/twin" }, { method := "GET", path := "/twin/" }] = []
+    ∧ overlapErrs [{ method := "GET", path := "/twin/{id}/" }, { method := "GET", path := "/twin/{itemId}" }] = []
+    ∧ overlapErrs [{ method := "GET", path := "/twin/{id}" }, { method := "GET", path := "/twin/{itemId}" }] ≠ [] := by decide
+
 end VM.C03
